@@ -576,6 +576,11 @@ def _check_config(cx: "Ctx", cfg_name: str, family: str, ctor: str, kind: str, t
     timing["eager_step_s"] = round(time.time() - t0, 2)
     step_eager_s = min(eager_cost) if eager_cost else None
 
+    # ------------------------------------------------------------------ (1e) native eager episodes
+    t0 = time.time()
+    native = native_episodes(cx, env, gx, actions, slow, tier)
+    timing["native_s"] = round(time.time() - t0, 2)
+
     # ------------------------------------------------------------------ reset: jit / vmap / eager
     t0 = time.time()
     reset_j = jax.jit(env.reset)
@@ -667,7 +672,9 @@ def _check_config(cx: "Ctx", cfg_name: str, family: str, ctor: str, kind: str, t
         "modes": {k: cx.vac.get(k, 0) for k in ("n_jit", "n_vmap", "n_scan", "n_scan_steps", "n_eager", "n_reset_jit",
                                                 "n_reset_vmap", "n_reset_eager", "n_histories", "n_history_calls",
                                                 "n_history_eager_calls", "n_trace_probes", "n_argument_checks",
-                                                "n_instance_calls", "n_held_rechecks", "n_reset_list_vs_vmap")},
+                                                "n_instance_calls", "n_held_rechecks", "n_reset_list_vs_vmap",
+                                                "n_native_resets", "n_native_steps")},
+        "native_episodes": native,
         "history_mode": hist["mode"], "history_alphabet": hist["alphabet"], "instance_check": hist["instances"],
         "eager_step_s": None if step_eager_s is None else round(step_eager_s, 3),
         "eager_reset_s": None if reset_eager_s is None else round(reset_eager_s, 3),
@@ -678,6 +685,102 @@ def _check_config(cx: "Ctx", cfg_name: str, family: str, ctor: str, kind: str, t
     if eager_reset_note:
         out["eager_reset_note"] = eager_reset_note
     return out
+
+
+# ---------------------------------------------------------------------------------------------
+# native eager episodes: the objects returned by un-jitted reset / step are handed on untouched
+# ---------------------------------------------------------------------------------------------
+NATIVE_WINDOW = list(range(16))
+# (root classes, root fan-out, chain length) — static per tier / cost class, never measured at run time
+NATIVE_BOUNDS = {
+    ("quick", False): (8, 16, 6), ("quick", True): (1, 2, 2),
+    ("thorough", False): (16, 64, 12), ("thorough", True): (3, 6, 4),
+}
+
+
+def root_classes(root_s: Any) -> List[int]:
+    """Index of the first root of every class of reset states that agree on all integer / bool leaves other than
+    the PRNG key (e.g. the 7 first Tetris pieces; instances with continuous data are all in different classes
+    only through their integer leaves, so they mostly collapse): a deterministic way of spreading a few
+    expensive eager episodes over structurally different starts."""
+    flat = jax.tree_util.tree_flatten_with_path(root_s)[0]
+    cols = [np.asarray(x).reshape(len(x), -1).astype(np.int64) for p, x in flat
+            if np.asarray(x).dtype.kind in "iub" and "key" not in jax.tree_util.keystr(p).lower()]
+    seen: Dict[bytes, int] = {}
+    n = t_len(root_s)
+    for i in range(n):
+        k = b"|".join(c[i].tobytes() for c in cols)
+        seen.setdefault(k, i)
+    return sorted(seen.values())
+
+
+def native_episodes(cx: "Ctx", env: Any, gx: GraphExec, actions: np.ndarray, slow: bool, tier: str) -> Dict[str, Any]:
+    """`s, ts = env.reset(key)` and `s, ts = env.step(s, a)` as a user's plain Python loop runs them: every state
+    handed to step is the very object the previous eager call returned (Python-scalar / weakly typed leaves
+    included), never a re-packed array copy.  From each selected reset state the root fan-out (all actions up
+    to the bound, evenly spaced beyond it) is stepped eagerly, then the first-surviving-action chain is followed;
+    every result must equal the graph value (`jit(vmap(vmap(step)))` on the canonical form of the same state)."""
+    n_cls, fan, chain = NATIVE_BOUNDS[(tier, slow)]
+    nA = len(actions)
+    rs, _ = gx.roots(NATIVE_WINDOW)
+    firsts = root_classes(rs)[:n_cls]
+    a_idx = list(range(nA)) if nA <= fan else sorted({(i * (nA - 1)) // (fan - 1) for i in range(fan)})
+    A_j = [jnp.asarray(a) for a in actions]
+    n_steps = 0
+    used_keys = []
+    for r in firsts:
+        k = NATIVE_WINDOW[r]
+        used_keys.append(k)
+        s_nat, ts_nat = env.reset(prng(k))
+        d = leaf_diff(t_index(rs, r), canon(s_nat))
+        cx.count("n_native_resets")
+        if d:
+            cx.violation("reset:eager-vs-jit-differs", f"un-jitted env.reset(PRNGKey({k})) differs from jit(vmap(reset)): {d[:4]}",
+                         {"kind": "native", "key": k, "actions": [], "failing": -1})
+            continue
+        ch_s, ch_ts = gx.children(t_index(rs, r))
+        first_alive = None
+        for a in a_idx:
+            out, mut = guarded(env.step, s_nat, A_j[a])
+            n_steps += 1
+            got = canon(out)
+            d = leaf_diff((t_index(ch_s, a), t_index(ch_ts, a)), got)
+            doc = {"kind": "native", "key": k, "actions": [int(a)], "failing": 0,
+                   "path_actions": [np.asarray(actions[a]).tolist()]}
+            if d:
+                cx.violation("step:eager-vs-jit-differs", "env.step(*env.reset(key)[:1], a) run as plain Python (the state object "
+                             f"returned by the eager reset passed on untouched) differs from the jitted graph: {d[:4]}", doc)
+            if mut:
+                cx.violation("argument-mutated", f"env.step modified its arguments: {mut[:4]}", doc)
+            if first_alive is None and int(np.asarray(got[1].step_type)) != 2:
+                first_alive = (a, out)
+        # chain: keep passing the native objects on
+        path = []
+        cur = first_alive
+        while cur is not None and len(path) < chain:
+            a, (s_nat, ts_nat) = cur
+            path.append(int(a))
+            s_can = canon(s_nat)
+            ch_s, ch_ts = gx.children(s_can)
+            alive = np.nonzero(np.asarray(ch_ts.step_type) != 2)[0]
+            a2 = int(alive[0]) if len(alive) else 0
+            out, mut = guarded(env.step, s_nat, A_j[a2])
+            n_steps += 1
+            got = canon(out)
+            d = leaf_diff((t_index(ch_s, a2), t_index(ch_ts, a2)), got)
+            doc = {"kind": "native", "key": k, "actions": path + [a2], "failing": len(path),
+                   "path_actions": [np.asarray(actions[x]).tolist() for x in path + [a2]]}
+            if d:
+                cx.violation("step:eager-vs-jit-differs", f"plain Python episode (native objects handed on) differs from the jitted "
+                             f"graph at step {len(path) + 1}: {d[:4]}", doc)
+                break
+            if mut:
+                cx.violation("argument-mutated", f"env.step modified its arguments: {mut[:4]}", doc)
+            cur = (a2, out) if len(alive) else None
+    cx.count("n_native_steps", n_steps)
+    cx.count("n_eager", n_steps)
+    cx.count("n_argument_checks", n_steps)
+    return {"keys": used_keys, "root_fanout": len(a_idx), "steps": n_steps}
 
 
 # ---------------------------------------------------------------------------------------------
@@ -977,6 +1080,17 @@ def replay_case(doc: Dict[str, Any]) -> int:
         ch = held.changed()
         rc |= _show(f"{mark('eager-held', list(ekeys))}results of the eager resets {list(ekeys)} still unchanged at the end",
                     [] if ch is None else [f"object returned by {ch[1]} changed"] + ch[2])
+        return rc
+    if kind == "native":
+        rs, _ = gx.roots([r["key"]])
+        s_nat, _ts = env.reset(prng(r["key"]))
+        rc = _show(f"eager reset({r['key']})", leaf_diff(t_index(rs, 0), canon(s_nat)))
+        for n, a in enumerate(r["actions"]):
+            ch_s, ch_ts = gx.children(canon(s_nat))
+            out, mut = guarded(env.step, s_nat, jnp.asarray(A_np[a]))
+            rc |= _show(f"plain Python step {n + 1} (action index {a})", leaf_diff((t_index(ch_s, a), t_index(ch_ts, a)), canon(out)))
+            rc |= _show("  arguments", mut)
+            s_nat = out[0]
         return rc
     if kind == "step-held":
         held = Held()
